@@ -1,0 +1,45 @@
+/*
+ * State-projection accessors for external verification harnesses.
+ *
+ * Everything in this file, and every function it declares, exists only when
+ * the library is compiled with -DLHASA_VERIF. The accessors are never called
+ * by the library itself and do not modify any state.
+ */
+
+#ifdef LHASA_VERIF
+#ifndef LHASA_VERIF_H
+#define LHASA_VERIF_H
+
+#include <stdlib.h>
+
+#include "public/lha_reader.h"
+#include "lha_basic_reader.h"
+#include "lha_input_stream.h"
+
+#define LHASA_VERIF_MAX_LIST 64
+
+typedef struct {
+	int curr_file_type;     /* 0=START 1=NORMAL 2=FAKE_DIR 3=DEFERRED 4=EOF */
+	LHAFileHeader *curr_file;
+	LHAFileHeader *basic_curr;
+	size_t basic_remaining;
+	int basic_eof;
+	int decoder_open;
+	int inner_decoder_open;
+	int dir_policy;
+	unsigned int n_dir_stack;
+	unsigned int n_deferred;
+	LHAFileHeader *dir_stack[LHASA_VERIF_MAX_LIST];
+	LHAFileHeader *deferred[LHASA_VERIF_MAX_LIST];
+} LhasaVerifReaderState;
+
+void lhasa_verif_reader_project(LHAReader *reader,
+                                LhasaVerifReaderState *out);
+void lhasa_verif_basic_project(LHABasicReader *reader,
+                               LHAFileHeader **curr_file,
+                               size_t *remaining, int *eof);
+void lhasa_verif_stream_project(LHAInputStream *stream,
+                                int *state, size_t *leadin_len);
+
+#endif /* #ifndef LHASA_VERIF_H */
+#endif /* #ifdef LHASA_VERIF */
